@@ -573,6 +573,36 @@ def deepcopy_live(S, kind):
         S.prove_eq(got.variance, as_sym_arr(SH.get(want.variance)), "%s: deep copy predicts the same variance" % kind)
 
 
+def deepcopy_live_var(S, kind, mode):
+    """deepcopy (e.g. keeping the best model during training) of a variational model right after a forward pass with gradients
+       enabled - in training mode (after an ELBO step's forward) or in evaluation mode: the copy is made and gives the same q(f), KL"""
+    x = S.randn(2, 1, scale=0.8); S.sym_tensor(x, "x")
+    xs = S.randn(1, 1, scale=0.8); S.sym_tensor(xs, "z")
+    y = S.randn(2); S.sym_tensor(y, "y")
+    Z = S.randn(2, 1, scale=0.8)
+    with S.mode():
+        orig = (VarModel2 if kind == "var2" else VarModel)(Z)
+        orig.variational_strategy.variational_params_initialized.fill_(1)
+        lik = _lik(0)
+        _symbolize(S, orig, "o_")  # parameters keep requires_grad=True
+        _symbolize(S, lik, "ol_")
+        if mode == "train":
+            orig.train(); lik.train()
+            loss = -gpytorch.mlls.VariationalELBO(lik, orig, num_data=5)(orig(x), y)
+            loss.backward()
+        else:
+            orig.eval(); lik.eval()
+            _ = orig(xs).mean
+        rest = S.must_not_raise("deepcopy of a %s model after a forward pass in %s mode (gradients enabled)" % (kind, mode),
+                                lambda: copy.deepcopy(orig), any_origin=True)
+        orig.eval(); rest.eval()
+        want, got = orig(xs), rest(xs)
+        S.prove_eq(got.mean, as_sym_arr(SH.get(want.mean)), "%s: deep copy gives the same q(f) mean" % kind)
+        S.prove_eq(got.variance, as_sym_arr(SH.get(want.variance)), "%s: deep copy gives the same q(f) variance" % kind)
+        S.prove_eq(rest.variational_strategy.kl_divergence(), as_sym_arr(SH.get(orig.variational_strategy.kl_divergence())), "%s: deep copy gives the same KL" % kind)
+        S.check_concrete(rest.variational_strategy.model is rest, "the copy's strategy refers to the copy, not to the original model")
+
+
 def model_list(S, mechanism):
     xs = S.randn(1, 1, scale=0.8); S.sym_tensor(xs, "z")
     with S.mode():
@@ -628,6 +658,8 @@ def scenarios(tier, seed):
             add("prior_closures", cls=cls)
         for kind in ("kiss_real", "exact"):
             add("deepcopy_live", kind=kind)
+        add("deepcopy_live_var", kind="var", mode="train")
+        add("deepcopy_live_var", kind="var2", mode="eval")
     else:
         for k in ("exact", "sgpr", "var", "kiss", "rff", "hadamard", "var2", "priors"):
             for mth in mechs:
@@ -642,4 +674,7 @@ def scenarios(tier, seed):
             add("prior_closures", cls=cls)
         for kind in ("kiss_real", "sgpr", "exact"):
             add("deepcopy_live", kind=kind)
+        for kind in ("var", "var2"):
+            for mode in ("train", "eval"):
+                add("deepcopy_live_var", kind=kind, mode=mode)
     return out
